@@ -3,4 +3,368 @@ import TensorModel.Proofs.Ltoi
 /-! Helper lemmas for C04 (views, copies, whole-tensor writes). -/
 namespace TM
 
+/-! ### slicing: the drop loop of `AP.S` -/
+
+/-- Re-inserting coordinate 0 at the dropped axes does not change the dot product with the
+    un-dropped strides. `exp` is any function satisfying the equations of `expandCoord`. -/
+theorem expand_drop_dot (exp : List Bool → List Int → List Int)
+    (h1 : ∀ c, exp [] c = [])
+    (h2 : ∀ ds c, exp (true :: ds) c = 0 :: exp ds c)
+    (h3 : ∀ ds ci c, exp (false :: ds) (ci :: c) = ci :: exp ds c)
+    (p : AxisRes × Bool → Bool) (l : List (AxisRes × Bool)) (c : List Int)
+    (hc : c.length = (l.filter (fun x => !p x)).length) :
+    (exp (l.map p) c).length = l.length ∧
+    dot (exp (l.map p) c) (l.map (·.1.stride)) =
+      dot c ((l.filter (fun x => !p x)).map (·.1.stride)) := by
+  induction l generalizing c with
+  | nil =>
+    cases c with
+    | nil => simp [h1, dot]
+    | cons _ _ => simp at hc
+  | cons x xs ih =>
+    cases hp : p x with
+    | true =>
+      have hc' : c.length = (xs.filter (fun x => !p x)).length := by simpa [hp] using hc
+      obtain ⟨il, id⟩ := ih c hc'
+      simp only [List.map_cons, hp, h2, List.length_cons, il, dot, Int.zero_mul, Int.zero_add, id,
+        List.filter_cons, Bool.not_true, Bool.false_eq_true, if_false, true_and]
+    | false =>
+      cases c with
+      | nil => simp [hp] at hc
+      | cons ci cs =>
+        have hc' : cs.length = (xs.filter (fun x => !p x)).length := by simpa [hp] using hc
+        obtain ⟨il, id⟩ := ih cs hc'
+        simp only [List.map_cons, hp, h3, List.length_cons, il, dot, id,
+          List.filter_cons, Bool.not_false, if_true, true_and]
+
+/-- The address computed by a view built by the non-scalar branch of `AP.S`. -/
+theorem slice_addr' (sel : List (Option Sl) → Shape → List (Int × Int))
+    (hnil : ∀ sls, sel sls [] = [])
+    (hcons : ∀ sls d ds, sel sls (d :: ds) = selAxis sls.head?.join d :: sel sls.tail ds)
+    (exp : List Bool → List Int → List Int)
+    (h1 : ∀ c, exp [] c = [])
+    (h2 : ∀ ds c, exp (true :: ds) c = 0 :: exp ds c)
+    (h3 : ∀ ds ci c, exp (false :: ds) (ci :: c) = ci :: exp ds c)
+    (ap nap : AP) (size ndStart ndEnd : Int) (sls : List (Option Sl)) (rs : List AxisRes)
+    (hloop : apSLoop (isVector ap.shape) (if !ap.o.col || isVector ap.shape then 0 else ap.shape.length - 1) 0
+      ap.shape ap.strides sls = .ok rs)
+    (h : ap.S size sls = .ok (nap, ndStart, ndEnd)) (hns : ndEnd - ndStart ≠ 1)
+    (c : List Int) (hc : c.length = nap.shape.length) :
+    ndStart + dot c nap.strides =
+      dot (List.zipWith (fun (p : Int × Int) ci => p.1 + ci * p.2) (sel sls ap.shape)
+        (exp ((rs.zip (sls.map Option.isSome ++ List.replicate rs.length false)).map
+          (fun (r, given) => r.n == 1 && given)) c)) ap.strides := by
+  unfold AP.S at h
+  simp only [bind, Except.bind, pure, Except.pure] at h
+  split at h
+  · cases h
+  · simp only [hloop] at h
+    split at h
+    · rename_i hone
+      injection h with h
+      injection h with _ h
+      injection h with hs he
+      subst hs he
+      exact absurd (by simpa using hone) hns
+    · injection h with h
+      injection h with hnap h
+      injection h with hs he
+      subst hnap hs he
+      simp only at hc ⊢
+      simp only [List.length_map] at hc
+      have hrl : rs.length = ap.shape.length :=
+        (apSLoop_addr' _ _ sel hnil hcons ap.shape ap.strides sls rs 0 hloop
+          (List.replicate ap.shape.length 0) (by simp)).1
+      generalize hl : rs.zip (List.map Option.isSome sls ++ List.replicate rs.length false) = l at hc ⊢
+      have hll : l.length = rs.length := by
+        rw [← hl]; simp [List.length_zip]
+      have hfst : l.map (·.1) = rs := by
+        rw [← hl]; exact List.map_fst_zip (by simp)
+      obtain ⟨el, ed⟩ := expand_drop_dot exp h1 h2 h3 (fun x => x.1.n == 1 && x.2) l c hc
+      have ha := (apSLoop_addr' _ _ sel hnil hcons ap.shape ap.strides sls rs 0 hloop
+        (exp (l.map (fun x => x.1.n == 1 && x.2)) c) (by rw [el, hll, hrl])).2
+      rw [← ha, List.map_map]
+      have ed' := ed
+      rw [show List.map (fun x : AxisRes × Bool => x.1.stride) l = List.map (fun x => x.stride) rs by
+        rw [← hfst, List.map_map]; rfl] at ed'
+      rw [ed']
+      rfl
+
+/-! ### folds of `St.set` / `St.mset` -/
+
+theorem St.set_heap_size {s s' : St} {w : Win} {i : Int} {v : Val} (h : s.set w i v = .ok s') :
+    s'.heap.size = s.heap.size := by
+  obtain ⟨b, _, _, _, _, rfl⟩ := St.set_ok h
+  simp
+
+theorem St.mset_heap {s s' : St} {w : Win} {i : Int} {v : Bool} (h : s.mset w i v = .ok s') :
+    s'.heap = s.heap := by
+  unfold St.mset at h
+  split at h
+  · cases h
+  · split at h
+    · cases h
+    · split at h
+      · injection h with h; subst h; rfl
+      · cases h
+
+/-- generic invariant of a successful `foldlM` in `Res` -/
+theorem foldlM_inv {α σ : Type} (f : σ → α → Res σ) (P : σ → Prop) (l : List α)
+    (hstep : ∀ s a s', a ∈ l → f s a = .ok s' → P s → P s') :
+    ∀ (s s' : σ), l.foldlM f s = .ok s' → P s → P s' := by
+  induction l with
+  | nil =>
+    intro s s' h hP
+    simp only [List.foldlM_nil, pure, Except.pure] at h
+    injection h with h; subst h; exact hP
+  | cons a l ih =>
+    intro s s' h hP
+    simp only [List.foldlM_cons, bind, Except.bind] at h
+    cases hf : f s a with
+    | error e => simp [hf] at h
+    | ok s1 =>
+      simp only [hf] at h
+      exact ih (fun s a s' ha => hstep s a s' (List.mem_cons_of_mem _ ha)) s1 s' h
+        (hstep s a s1 List.mem_cons_self hf hP)
+
+/-- a fold of writes of the same value `v`: every listed offset reads `v` afterwards -/
+theorem foldlM_set_get (w : Win) (v : Val) (i : Int) :
+    ∀ (l : List Int) (s s' : St), l.foldlM (fun s j => s.set w j v) s = .ok s' →
+      (i ∈ l ∨ s.get w i = .ok v) → s'.get w i = .ok v := by
+  intro l
+  induction l with
+  | nil =>
+    intro s s' h hi
+    simp only [List.foldlM_nil, pure, Except.pure] at h
+    injection h with h; subst h
+    rcases hi with hi | hi
+    · cases hi
+    · exact hi
+  | cons a l ih =>
+    intro s s' h hi
+    simp only [List.foldlM_cons, bind, Except.bind] at h
+    cases hf : s.set w a v with
+    | error e => simp [hf] at h
+    | ok s1 =>
+      simp only [hf] at h
+      apply ih s1 s' h
+      by_cases hia : i = a
+      · subst hia; exact Or.inr (St.get_set_same hf)
+      · rcases hi with hi | hi
+        · rcases List.mem_cons.mp hi with hi | hi
+          · exact absurd hi hia
+          · exact Or.inl hi
+        · exact Or.inr ((St.get_set_other hf hia).trans hi)
+
+/-- a fold of writes at offsets `l` leaves every cell not addressed by `l` unchanged -/
+theorem foldlM_set_frame (w : Win) (v : Val) (l : List Int) (s s' : St)
+    (h : l.foldlM (fun s j => s.set w j v) s = .ok s') (b k : Nat)
+    (hout : b ≠ w.buf ∨ ∀ i ∈ l, (k : Int) ≠ w.off + i) :
+    (s'.heap[b]?).bind (·[k]?) = (s.heap[b]?).bind (·[k]?) := by
+  refine foldlM_inv (fun s j => s.set w j v)
+    (fun x => (x.heap[b]?).bind (·[k]?) = (s.heap[b]?).bind (·[k]?)) l ?_ s s' h rfl
+  intro s1 a s2 ha hs hP
+  rw [← hP]
+  apply St.set_frame hs
+  rcases hout with hb | hk
+  · exact Or.inl hb
+  · exact Or.inr (hk a ha)
+
+theorem memset_writes' (st st' : St) (t : Dense) (v : Val) (hm : t.isMaterializable = true)
+    (h : t.memset st v = .ok st') (i : Int) (hi : i ∈ t.offsets) :
+    st'.get t.win i = .ok v := by
+  unfold Dense.memset at h
+  simp only [hm, if_true] at h
+  exact foldlM_set_get t.win v i t.offsets st st' h (Or.inl hi)
+
+theorem memset_frame' (st st' : St) (t : Dense) (v : Val) (hm : t.isMaterializable = true)
+    (h : t.memset st v = .ok st') (b k : Nat)
+    (hout : b ≠ t.win.buf ∨ ∀ i ∈ t.offsets, (k : Int) ≠ t.win.off + i) :
+    (st'.heap[b]?).bind (·[k]?) = (st.heap[b]?).bind (·[k]?) := by
+  unfold Dense.memset at h
+  simp only [hm, if_true] at h
+  exact foldlM_set_frame t.win v t.offsets st st' h b k hout
+
+theorem foldlM_mset_heap (m : Win) (l : List Int) (s s' : St)
+    (h : l.foldlM (fun s i => s.mset m i false) s = .ok s') : s'.heap = s.heap := by
+  refine foldlM_inv (fun s i => s.mset m i false) (fun x => x.heap = s.heap) l ?_ s s' h rfl
+  intro s1 a s2 _ hs hP
+  rw [← hP]; exact St.mset_heap hs
+
+theorem zero_frame' (st st' : St) (t : Dense) (hm : t.isMaterializable = true)
+    (h : t.zero st = .ok st') (b k : Nat)
+    (hout : b ≠ t.win.buf ∨ ∀ i ∈ t.offsets, (k : Int) ≠ t.win.off + i) :
+    (st'.heap[b]?).bind (·[k]?) = (st.heap[b]?).bind (·[k]?) := by
+  unfold Dense.zero at h
+  simp only [bind, Except.bind] at h
+  split at h
+  · cases h
+  · rename_i s1 hs1
+    rw [memset_frame' s1 st' t Val.zero hm h b k hout]
+    have : s1.heap = st.heap := by
+      split at hs1
+      · split at hs1
+        · exact foldlM_mset_heap _ _ _ _ hs1
+        · simp only [pure, Except.pure] at hs1; injection hs1 with hs1; rw [hs1]
+      · simp only [pure, Except.pure] at hs1; injection hs1 with hs1; rw [hs1]
+    rw [this]
+
+/-! ### `rawCopy` and `clone` -/
+
+/-- a successful `mapM` in `Res` computes `f` pointwise -/
+theorem mapM_ok {α β : Type} (f : α → Res β) :
+    ∀ (l : List α) (vals : List β), l.mapM f = .ok vals →
+      ∀ (k : Nat) (a : α), l[k]? = some a → ∃ v, vals[k]? = some v ∧ f a = .ok v := by
+  intro l
+  induction l with
+  | nil => intro vals _ k a hk; simp at hk
+  | cons x xs ih =>
+    intro vals h k a hk
+    simp only [List.mapM_cons, bind, Except.bind, pure, Except.pure] at h
+    cases hx : f x with
+    | error e => simp [hx] at h
+    | ok y =>
+      simp only [hx] at h
+      cases hxs : xs.mapM f with
+      | error e => simp [hxs] at h
+      | ok ys =>
+        simp only [hxs] at h
+        injection h with h; subst h
+        cases k with
+        | zero =>
+          simp only [List.getElem?_cons_zero, Option.some.injEq] at hk
+          subst hk
+          exact ⟨y, by simp, hx⟩
+        | succ k =>
+          simp only [List.getElem?_cons_succ] at hk ⊢
+          exact ih ys hxs k a hk
+
+theorem rangeI_getElem? (n k : Nat) (h : k < n) : (rangeI n)[k]? = some (k : Int) := by
+  simp [rangeI, h]
+
+/-- the write loop of `rawCopy`: cells `j, j+1, …` of the destination window receive `vals`, cells
+    below `j` and all other buffers keep their content -/
+theorem rawCopy_wr_spec (dst : Win) :
+    ∀ (vals : List Val) (s s' : St) (j : Int), Dense.rawCopy.wr dst s j vals = .ok s' →
+      (∀ b k : Nat, b ≠ dst.buf → (s'.heap[b]?).bind (·[k]?) = (s.heap[b]?).bind (·[k]?)) ∧
+      (∀ i, i < j → s'.get dst i = s.get dst i) ∧
+      (∀ (k : Nat) v, vals[k]? = some v → s'.get dst (j + k) = .ok v) := by
+  intro vals
+  induction vals with
+  | nil =>
+    intro s s' j h
+    simp only [Dense.rawCopy.wr] at h
+    injection h with h; subst h
+    exact ⟨fun _ _ _ => rfl, fun _ _ => rfl, fun k v hk => by simp at hk⟩
+  | cons v vs ih =>
+    intro s s' j h
+    simp only [Dense.rawCopy.wr, bind, Except.bind] at h
+    cases hs : s.set dst j v with
+    | error e => simp [hs] at h
+    | ok s1 =>
+      simp only [hs] at h
+      obtain ⟨hf, hlt, hget⟩ := ih s1 s' (j + 1) h
+      refine ⟨?_, ?_, ?_⟩
+      · intro b k hb
+        rw [hf b k hb]
+        exact St.set_frame hs b k (Or.inl hb)
+      · intro i hi
+        rw [hlt i (by omega)]
+        exact St.get_set_other hs (by omega)
+      · intro k w hk
+        cases k with
+        | zero =>
+          simp only [List.getElem?_cons_zero, Option.some.injEq] at hk
+          subst hk
+          have : j + ((0 : Nat) : Int) = j := by omega
+          rw [this, hlt j (by omega)]
+          exact St.get_set_same hs
+        | succ k =>
+          simp only [List.getElem?_cons_succ] at hk
+          have : j + ((k + 1 : Nat) : Int) = j + 1 + (k : Int) := by omega
+          rw [this]
+          exact hget k w hk
+
+theorem rawCopy_spec (s s' : St) (dst src : Win) (h : Dense.rawCopy s dst src = .ok s') :
+    (∀ b k : Nat, b ≠ dst.buf → (s'.heap[b]?).bind (·[k]?) = (s.heap[b]?).bind (·[k]?)) ∧
+    (∀ k : Nat, k < min dst.len src.len → ∃ v, s.get src k = .ok v ∧ s'.get dst k = .ok v) := by
+  unfold Dense.rawCopy at h
+  simp only [bind, Except.bind] at h
+  cases hv : (rangeI (min dst.len src.len)).mapM (fun i => s.get src i) with
+  | error e => simp [hv] at h
+  | ok vals =>
+    simp only [hv] at h
+    obtain ⟨hf, _, hget⟩ := rawCopy_wr_spec dst vals s s' 0 h
+    refine ⟨hf, ?_⟩
+    intro k hk
+    obtain ⟨v, hvk, hg⟩ := mapM_ok _ _ vals hv k (k : Int) (rangeI_getElem? _ k hk)
+    refine ⟨v, hg, ?_⟩
+    have := hget k v hvk
+    simpa using this
+
+/-- unfolding of `Clone()` on an unmasked tensor -/
+theorem clone_unfold (st st' : St) (t r : Dense) (hnm : t.mask = none) (h : t.clone st = .ok (st', r)) :
+    r = { ap := { t.ap with fin := true }, old := t.old, tw := none,
+          win := ⟨st.heap.size, 0, t.win.len, t.win.len⟩, dt := t.dt, eng := t.eng } ∧
+    Dense.rawCopy { st with heap := st.heap.push (Array.replicate t.win.len Val.zero) }
+      ⟨st.heap.size, 0, t.win.len, t.win.len⟩ t.win = .ok st' := by
+  unfold Dense.clone Dense.copyDense Dense.copyMask St.alloc at h
+  simp only [hnm, bind, Except.bind, pure, Except.pure] at h
+  split at h
+  · cases h
+  · injection h with h
+    injection h with h1 h2
+    subst h1 h2
+    rename_i s1 hs1
+    exact ⟨rfl, hs1⟩
+
+theorem push_cell (heap : Heap) (x : Array Val) (b k : Nat) (hb : b < heap.size) :
+    ((heap.push x)[b]?).bind (·[k]?) = (heap[b]?).bind (·[k]?) := by
+  rw [Array.getElem?_push_lt hb]
+  simp [hb]
+
+theorem clone_fresh' (st st' : St) (t r : Dense) (hnm : t.mask = none) (h : t.clone st = .ok (st', r)) :
+    r.win.buf = st.heap.size ∧ r.win.off = 0 ∧ r.win.len = t.win.len ∧
+    r.ap.shape = t.ap.shape ∧ r.ap.strides = t.ap.strides ∧ r.ap.o = t.ap.o ∧ r.view = false ∧
+    (∀ b k : Nat, b < st.heap.size → (st'.heap[b]?).bind (·[k]?) = (st.heap[b]?).bind (·[k]?)) := by
+  obtain ⟨hr, hc⟩ := clone_unfold st st' t r hnm h
+  subst hr
+  refine ⟨rfl, rfl, rfl, rfl, rfl, rfl, rfl, ?_⟩
+  intro b k hb
+  rw [(rawCopy_spec _ _ _ _ hc).1 b k (by simp only; omega)]
+  exact push_cell st.heap _ b k hb
+
+theorem get_push (st : St) (x : Array Val) (w : Win) (i : Int) (hb : w.buf < st.heap.size) :
+    St.get { st with heap := st.heap.push x } w i = st.get w i := by
+  unfold St.get
+  simp only [Array.getElem?_push_lt hb]
+  simp [hb]
+
+theorem clone_eq' (st st' : St) (t r : Dense) (hnm : t.mask = none) (h : t.clone st = .ok (st', r))
+    (hwf : t.win.buf < st.heap.size) (i : Int) (hi : 0 ≤ i ∧ i < t.win.len) :
+    st'.get r.win i = st.get t.win i := by
+  obtain ⟨hr, hc⟩ := clone_unfold st st' t r hnm h
+  subst hr
+  obtain ⟨v, hg, hs⟩ := (rawCopy_spec _ _ _ _ hc).2 i.toNat (by simp only [Nat.min_self]; omega)
+  have hii : ((i.toNat : Nat) : Int) = i := by omega
+  rw [hii] at hg hs
+  rw [get_push st _ t.win i hwf] at hg
+  rw [hg]
+  exact hs
+
+theorem copyTo_refuses_views' (st : St) (t other : Dense) (hv : t.view = true ∨ other.view = true)
+    (hs : other.size = t.size) :
+    ∃ tag, t.copyTo st other = .error (.err tag) := by
+  unfold Dense.copyTo
+  have hc : (!t.view && !other.view) = false := by
+    rcases hv with hv | hv <;> simp [hv]
+  simp only [hs, bne_self_eq_false, hc, bind, Except.bind]
+  exact ⟨_, rfl⟩
+
+theorem materialize_self' (st : St) (t : Dense) (h : t.isMaterializable = false) :
+    t.materialize st = .ok (st, none) := by
+  unfold Dense.materialize
+  simp [h]
+  rfl
+
 end TM
